@@ -60,7 +60,8 @@ def run(rep, tier, seed):
             c[i] = vlib.run_lines(k1, [lines[i]], env=env)[0]
         t1 = time.time()
         m = run_balanced(vlib, model, lines, shards=vlib.NCPU, cost=model_cost)
-        timing[what] = [round(t1 - t0, 1), round(time.time() - t1, 1)]
+        old = timing.get(what, [0, 0])
+        timing[what] = [round(old[0] + t1 - t0, 1), round(old[1] + time.time() - t1, 1)]
         rep.evaluated(len(lines)); hist[what] = hist.get(what, 0) + len(lines)
         nbad = 0
         for line, co, mo in zip(lines, c, m):
@@ -205,8 +206,8 @@ def run(rep, tier, seed):
     configs = []
     combos = [(bs, ri, comp, bits, cmp) for bs in G.BLOCK_SIZES for ri in G.INTERVALS for comp in (0, 1)
               for bits in G.FILTER_BITS for cmp in (0, 1)]
-    ncfg = 60 if quick else len(combos) + 150
-    budget = (5 << 20) if quick else (400 << 20)     # bytes of entries over all tables
+    ncfg = 60 if quick else len(combos) + 60
+    budget = (5 << 20) if quick else (60 << 20)     # bytes of entries over all tables
     used = 0
     for i in range(ncfg):
         bs, ri, comp, bits, cmp = combos[rng.below(len(combos))] if quick or i >= len(combos) else combos[i]
@@ -215,7 +216,7 @@ def run(rep, tier, seed):
         if quick and i < 4: n = [0, 1, 2000, 1200][i]
         es = G.gen_entries(rng, tier, cmp, n=n)
         sz = sum(len(e[0]) + len(e[1]) for e in es)
-        cap = {64: 30 << 10, 256: 60 << 10, 1024: 150 << 10, 4096: 300 << 10, 65536: 700 << 10}[bs] * (1 if quick else 8)
+        cap = {64: 30 << 10, 256: 60 << 10, 1024: 150 << 10, 4096: 300 << 10, 65536: 700 << 10}[bs] * (1 if quick else 4)
         if sz > cap and (quick or i < len(combos)):
             # the list-based model re-walks the file for every block: keep blocks x file size modest
             acc = 0; keep = []
@@ -225,86 +226,91 @@ def run(rep, tier, seed):
             es = keep; sz = acc
         used += sz
         configs.append((bs, ri, comp, bits, cmp, es))
-    blines = ['table_build %s %s' % (G.opts_str(bs, ri, comp, bits, cmp), G.entries_arg(es)) for (bs, ri, comp, bits, cmp, es) in configs]
-    cb, mb = both(blines, 'table-build-bytes')
-    tl = []; tm = []
     tables = []
-    for cfg, line, o, om in zip(configs, blines, cb, mb):
-        bs, ri, comp, bits, cmp, es = cfg
-        if bad(o) or o != om: continue
-        f = unhx(o)
-        pes = [(e[0], e[1]) for e in es]
-        rep.nontrivial(('table', bs, ri, comp, bits, cmp, len(es), len(f)))
-        # second independent reader
-        t = G.parse_table(f)
-        oracle(t is not None and G.table_entries(t) == pes, 'table-python-reader', line, o[:2000])
-        if t is not None:
-            hist['data-blocks'] = hist.get('data-blocks', 0) + len(t['blocks'])
-            hist['compressed-blocks'] = hist.get('compressed-blocks', 0) + sum(1 for (_, ty, _) in t['blocks'] if ty == 1)
-            oracle((t['filter'] is not None) == (bits > 0), 'table-filter-presence', line, o[:2000])
-        tables.append((cfg, f, t))
-        keys = [e[0] for e in es]
-        def ropts():
-            return G.opts_str(bs, ri, comp, bits, cmp, rng.below(2), rng.below(2), rng.below(2), rng.below(2))
-        fh = o
-        tl.append('table_scan %s %s' % (ropts(), fh)); tm.append(('scan', cfg))
-        tl.append('table_entries %s %s' % (ropts(), fh)); tm.append(('entries', cfg))
-        # lookups: every present key (sampled for big tables) + absent ones
-        npres = 64 if quick else 400
-        present = keys if len(keys) <= npres else [rng.choice(keys) for _ in range(npres)]
-        targets = present + G.gen_targets(rng, keys, cmp, 40)
-        for j in range(0, len(targets), 64):
-            ch = targets[j:j + 64]
-            tl.append('table_get %s %s %s' % (ropts(), fh, ','.join(hx(k) for k in ch))); tm.append(('get', cfg, ch))
-        for _ in range(2):
-            ops = G.gen_script(rng, keys, cmp, rng.choice([10, 40, 120]))
-            tl.append('table_iter %s %s %s' % (ropts(), fh, G.script_arg(ops))); tm.append(('iter', cfg, ops))
-        # seeks between blocks: just after the last key / before the first key of each block
-        if t is not None and t['blocks']:
-            ops = []
-            for (_, _, bp) in t['blocks'][:30]:
-                if bp['entries']:
-                    ops.append(('S', G.near_keys(rng, bp['entries'][-1][0], cmp))); ops.append(('N',)); ops.append(('P',)); ops.append(('P',))
-                    ops.append(('S', bp['entries'][0][0])); ops.append(('P',)); ops.append(('N',))
-            tl.append('table_iter %s %s %s' % (ropts(), fh, G.script_arg(ops))); tm.append(('iter', cfg, ops))
-    ct, mt_ = both(tl, 'table-read', cshards=8)
-    if os.environ.get('C16_DUMP'): open(os.environ['C16_DUMP'], 'w').write('\n'.join(tl) + '\n')
-    for line, mt, o in zip(tl, tm, ct):
-        if bad(o): continue
-        cfg = mt[1]; bs, ri, comp, bits, cmp, es = cfg
-        pes = [(e[0], e[1]) for e in es]
-        sk = G.sortkey(cmp)
-        short_line = line
-        if mt[0] == 'scan':
-            parts = o.split(' ')
-            ok = len(parts) == 4 and parts[1] == 'ok' and parts[3] == 'ok' and \
-                G.parse_entries_out(parts[0]) == pes and G.parse_entries_out(parts[2]) == pes[::-1]
-            oracle(ok, 'scan-roundtrip', short_line, o[:2000])
-        elif mt[0] == 'entries':
-            parts = o.split(' ')
-            oracle(len(parts) == 2 and parts[1] == 'ok' and G.parse_entries_out(parts[0]) == pes, 'entries-roundtrip', short_line, o[:2000])
-        elif mt[0] == 'get':
-            res = o.split(',') if o != '.' else []
-            import bisect
-            skeys = [sk(k) for (k, _) in pes]
-            for k, r in zip(mt[2], res):
-                if cmp == 1 and len(k) < 8: continue
-                ent, st = r.split('/')
-                i = bisect.bisect_left(skeys, sk(k))
-                succ = pes[i] if i < len(pes) else None
-                got = None if ent == '!' else tuple(unhx(x) for x in ent.split('='))
-                if succ is not None and succ[0] == k:
-                    ok = st == 'ok' and got == succ                   # present: found, with its value
-                else:
-                    ok = st == 'ok' and (got is None or got == succ)  # absent: nothing, or the successor entry (never any other)
-                hist['get-present' if (succ and succ[0] == k) else 'get-absent'] = hist.get('get-present' if (succ and succ[0] == k) else 'get-absent', 0) + 1
-                oracle(ok, 'get', short_line + ' key=' + hx(k), r, succ and (hx(succ[0]), hx(succ[1])[:100]))
-        elif mt[0] == 'iter':
-            ops = mt[2]
-            steps, st = o.rsplit(' ', 1)
-            if not (cmp == 1 and any(op[0] == 'S' and len(op[1]) < 8 for op in ops)):
-                want = [None if i is None else pes[i] for i in G.ref_cursor(pes, cmp, ops)]
-                oracle(G.parse_steps(steps) == want and st == 'ok', 'table-cursor', short_line, o[:2000])
+    all_configs = configs
+    nbuild = [0]; nread = [0]
+    CH = 64
+    for ci in range(0, len(all_configs), CH):
+        configs = all_configs[ci:ci + CH]
+        blines = ['table_build %s %s' % (G.opts_str(bs, ri, comp, bits, cmp), G.entries_arg(es)) for (bs, ri, comp, bits, cmp, es) in configs]
+        cb, mb = both(blines, 'table-build-bytes'); nbuild[0] += len(blines)
+        tl = []; tm = []
+        for cfg, line, o, om in zip(configs, blines, cb, mb):
+            bs, ri, comp, bits, cmp, es = cfg
+            if bad(o) or o != om: continue
+            f = unhx(o)
+            pes = [(e[0], e[1]) for e in es]
+            rep.nontrivial(('table', bs, ri, comp, bits, cmp, len(es), len(f)))
+            # second independent reader
+            t = G.parse_table(f)
+            oracle(t is not None and G.table_entries(t) == pes, 'table-python-reader', line, o[:2000])
+            if t is not None:
+                hist['data-blocks'] = hist.get('data-blocks', 0) + len(t['blocks'])
+                hist['compressed-blocks'] = hist.get('compressed-blocks', 0) + sum(1 for (_, ty, _) in t['blocks'] if ty == 1)
+                oracle((t['filter'] is not None) == (bits > 0), 'table-filter-presence', line, o[:2000])
+            if len(f) <= (40 << 10) and len(tables) < 400: tables.append((cfg, f, t))
+            keys = [e[0] for e in es]
+            def ropts():
+                return G.opts_str(bs, ri, comp, bits, cmp, rng.below(2), rng.below(2), rng.below(2), rng.below(2))
+            fh = o
+            tl.append('table_scan %s %s' % (ropts(), fh)); tm.append(('scan', cfg))
+            tl.append('table_entries %s %s' % (ropts(), fh)); tm.append(('entries', cfg))
+            # lookups: every present key (sampled for big tables) + absent ones
+            npres = 64 if quick else 400
+            present = keys if len(keys) <= npres else [rng.choice(keys) for _ in range(npres)]
+            targets = present + G.gen_targets(rng, keys, cmp, 40)
+            for j in range(0, len(targets), 64):
+                ch = targets[j:j + 64]
+                tl.append('table_get %s %s %s' % (ropts(), fh, ','.join(hx(k) for k in ch))); tm.append(('get', cfg, ch))
+            for _ in range(2):
+                ops = G.gen_script(rng, keys, cmp, rng.choice([10, 40, 120]))
+                tl.append('table_iter %s %s %s' % (ropts(), fh, G.script_arg(ops))); tm.append(('iter', cfg, ops))
+            # seeks between blocks: just after the last key / before the first key of each block
+            if t is not None and t['blocks']:
+                ops = []
+                for (_, _, bp) in t['blocks'][:30]:
+                    if bp['entries']:
+                        ops.append(('S', G.near_keys(rng, bp['entries'][-1][0], cmp))); ops.append(('N',)); ops.append(('P',)); ops.append(('P',))
+                        ops.append(('S', bp['entries'][0][0])); ops.append(('P',)); ops.append(('N',))
+                tl.append('table_iter %s %s %s' % (ropts(), fh, G.script_arg(ops))); tm.append(('iter', cfg, ops))
+        ct, mt_ = both(tl, 'table-read', cshards=8); nread[0] += len(tl)
+        if os.environ.get('C16_DUMP'): open(os.environ['C16_DUMP'], 'w').write('\n'.join(tl) + '\n')
+        for line, mt, o in zip(tl, tm, ct):
+            if bad(o): continue
+            cfg = mt[1]; bs, ri, comp, bits, cmp, es = cfg
+            pes = [(e[0], e[1]) for e in es]
+            sk = G.sortkey(cmp)
+            short_line = line
+            if mt[0] == 'scan':
+                parts = o.split(' ')
+                ok = len(parts) == 4 and parts[1] == 'ok' and parts[3] == 'ok' and \
+                    G.parse_entries_out(parts[0]) == pes and G.parse_entries_out(parts[2]) == pes[::-1]
+                oracle(ok, 'scan-roundtrip', short_line, o[:2000])
+            elif mt[0] == 'entries':
+                parts = o.split(' ')
+                oracle(len(parts) == 2 and parts[1] == 'ok' and G.parse_entries_out(parts[0]) == pes, 'entries-roundtrip', short_line, o[:2000])
+            elif mt[0] == 'get':
+                res = o.split(',') if o != '.' else []
+                import bisect
+                skeys = [sk(k) for (k, _) in pes]
+                for k, r in zip(mt[2], res):
+                    if cmp == 1 and len(k) < 8: continue
+                    ent, st = r.split('/')
+                    i = bisect.bisect_left(skeys, sk(k))
+                    succ = pes[i] if i < len(pes) else None
+                    got = None if ent == '!' else tuple(unhx(x) for x in ent.split('='))
+                    if succ is not None and succ[0] == k:
+                        ok = st == 'ok' and got == succ                   # present: found, with its value
+                    else:
+                        ok = st == 'ok' and (got is None or got == succ)  # absent: nothing, or the successor entry (never any other)
+                    hist['get-present' if (succ and succ[0] == k) else 'get-absent'] = hist.get('get-present' if (succ and succ[0] == k) else 'get-absent', 0) + 1
+                    oracle(ok, 'get', short_line + ' key=' + hx(k), r, succ and (hx(succ[0]), hx(succ[1])[:100]))
+            elif mt[0] == 'iter':
+                ops = mt[2]
+                steps, st = o.rsplit(' ', 1)
+                if not (cmp == 1 and any(op[0] == 'S' and len(op[1]) < 8 for op in ops)):
+                    want = [None if i is None else pes[i] for i in G.ref_cursor(pes, cmp, ops)]
+                    oracle(G.parse_steps(steps) == want and st == 'ok', 'table-cursor', short_line, o[:2000])
 
     # ================================================================ stage 3: malformed stream (C18)
     ml = []
@@ -417,7 +423,7 @@ def run(rep, tier, seed):
                        'streams and tables, run through the model, the plain build and the ASan+UBSan build; distinct_nontrivial counts '
                        'distinct (kind, sizes, options) of valid blocks / filters / Snappy buffers / tables')
     rep.cov['input_distribution'] = hist
-    rep.cov['traces_validated_against_impl'] = len(lines) + len(lines2) + len(blines) + len(tl) + len(ml)
+    rep.cov['traces_validated_against_impl'] = len(lines) + len(lines2) + nbuild[0] + nread[0] + len(ml)
     rep.cov['timing_s (C, model)'] = timing
     rep.cov['wall_correspondence_s'] = round(time.time() - t_start, 1)
     rep.assumptions += [
